@@ -27,7 +27,7 @@ fn cfg(d: &mut Dna) -> GenCfg {
 }
 
 /// special shapes: very many unit variants (tag width boundaries)
-fn adjust(s: &mut TypeSpec, d: &mut Dna) -> bool {
+pub fn adjust(s: &mut TypeSpec, d: &mut Dna) -> bool {
     if d.chance(8) && s.gens.is_empty() {
         let n = [127usize, 128, 129, 255, 256, 257][d.pick(6)];
         let first = s.variants.first().cloned();
